@@ -211,6 +211,7 @@ type Engine struct {
 	Fset     *token.FileSet
 	Specs    map[*ssa.Package]*PkgSpec
 	Std      *PkgSpec
+	funcIds  map[*ssa.Function]int64
 	counter  int
 	cellCtr  int
 	obs      []*Obligation
